@@ -79,6 +79,7 @@ PROPS = {
         "lean_modules": ["TableauVerif.Props.C09", "TableauVerif.Props.C09Doc", "TableauVerif.Props.C09Incell"],
         "oracles": ["c09.doc", "c09.known", "c14.e2e"],
         "streams": [
+            ("corr.importer.docBookName", 300, 6000),
             ("e2e.C09.documents", 360, 15000, 8),
             ("corr.importer.xmlToNode", 6000, 200000),
             ("corr.confgen.docParse", 6000, 200000),
@@ -107,7 +108,7 @@ PROPS = {
         ],
     },
     "C02": {
-        "lean_modules": ["TableauVerif.Props.C02", "TableauVerif.Props.C02Flat", "TableauVerif.Props.C02Found", "TableauVerif.Props.C07Header"],
+        "lean_modules": ["TableauVerif.Props.C02", "TableauVerif.Props.C02Flat", "TableauVerif.Props.C02Found", "TableauVerif.Props.C07Header", "TableauVerif.Props.C15Elem"],
         "oracles": ["c02.closure", "c02.known", "c14.merge", "c09.doc"],
         "streams": [
             ("e2e.C02.closure", 400, 20000, 8),
@@ -126,7 +127,7 @@ PROPS = {
         ],
     },
     "C15": {
-        "lean_modules": ["TableauVerif.Props.C15"],
+        "lean_modules": ["TableauVerif.Props.C15", "TableauVerif.Props.C15Elem"],
         "oracles": ["c15.append", "c15.versions", "c15.known", "c14.merge"],
         "streams": [
             ("spec.C15.append", 3000, 150000),
@@ -144,9 +145,10 @@ PROPS = {
         ],
     },
     "C08": {
-        "lean_modules": ["TableauVerif.Props.C08", "TableauVerif.Props.C01Grid", "TableauVerif.Props.C01Csv"],
+        "lean_modules": ["TableauVerif.Props.C08", "TableauVerif.Props.C01Grid", "TableauVerif.Props.C01Csv", "TableauVerif.Props.C18Names"],
         "oracles": ["c08.twin", "c08.known", "imp.grid"],
         "streams": [
+            ("corr.xfs.csvNames", 4000, 100000),
             ("e2e.C08.twins", 240, 12000, 8),
             ("corr.protogen.parseHeader", 3000, 100000),
             ("corr.importer.grid", 3000, 100000),
@@ -178,9 +180,11 @@ PROPS = {
         ],
     },
     "C18": {
-        "lean_modules": ["TableauVerif.Props.C18", "TableauVerif.Props.C18Incr", "TableauVerif.Props.C05Loops"],
+        "lean_modules": ["TableauVerif.Props.C18", "TableauVerif.Props.C18Incr", "TableauVerif.Props.C05Loops", "TableauVerif.Props.C18Names"],
         "oracles": ["c18.prep", "c18.incr", "c18.related"],
         "streams": [
+            # naming a CSV workbook by a sheet file: the real xfs functions vs Model.CsvName ("#" and "." in directories and sheet names)
+            ("corr.xfs.csvNames", 4000, 100000),
             ("corr.protogen.prepareOutdir", 3000, 100000),
             ("corr.xfs.clean", 30000, 400000),
             ("e2e.C18.incremental", 20, 300, 5),
@@ -245,9 +249,11 @@ PROPS = {
         ],
     },
     "C11": {
-        "lean_modules": ["TableauVerif.Props.C11", "TableauVerif.Props.C11Union"],
+        "lean_modules": ["TableauVerif.Props.C11", "TableauVerif.Props.C11Union", "TableauVerif.Props.C18Names"],
         "oracles": ["c11.merge", "c11.spec", "c11.docscatter"],
         "streams": [
+            # the book name of a YAML / XML workbook (what scattered files are named after) vs Model.CsvName.trimExt ∘ baseName
+            ("corr.importer.docBookName", 300, 6000),
             ("e2e.C11.merge", 400, 20000, 8),
             ("e2e.C11.specifiers", 300, 12000),
             # Scatter on YAML / XML books: one file <Book>_<Sheet> per matched book, with that book's entries
@@ -284,7 +290,7 @@ PROPS = {
         ],
     },
     "C10": {
-        "lean_modules": ["TableauVerif.Props.C10"],
+        "lean_modules": ["TableauVerif.Props.C10", "TableauVerif.Props.C10d", "TableauVerif.Props.C12Count"],
         "oracles": ["tp.pair", "c10.schema", "c12.refer"],
         "streams": [
             ("corr.confgen.layoutPairs", 6000, 200000),
@@ -350,7 +356,7 @@ PROPS = {
         ],
     },
     "C12": {
-        "lean_modules": ["TableauVerif.Props.C12", "TableauVerif.Props.C12Contig", "TableauVerif.Props.C12Seq"],
+        "lean_modules": ["TableauVerif.Props.C12", "TableauVerif.Props.C12Contig", "TableauVerif.Props.C12Seq", "TableauVerif.Props.C12Count"],
         "oracles": ["c12.range", "c12.contig", "c01.rt", "c12.refer", "doc.parse", "c12.seq", "c12.redecl", "c12.keyrange"],
         "streams": [
             ("corr.fieldprop.range", 12000, 400000),
@@ -375,7 +381,7 @@ PROPS = {
         ],
     },
     "C13": {
-        "lean_modules": ["TableauVerif.Props.C13"],
+        "lean_modules": ["TableauVerif.Props.C13", "TableauVerif.Props.C13Map"],
         "oracles": ["c13.patch", "c13.load", "c13.dry", "c13.tbl", "c13.ydoc", "c13.emap"],
         "streams": [
             ("corr.xproto.patch", 6000, 300000),
@@ -396,7 +402,7 @@ PROPS = {
         ],
     },
     "C03": {
-        "lean_modules": ["TableauVerif.Props.C03", "TableauVerif.Props.C03Frac", "TableauVerif.Props.C03Enum", "TableauVerif.Props.C20Dur"],
+        "lean_modules": ["TableauVerif.Props.C03", "TableauVerif.Props.C03Frac", "TableauVerif.Props.C03Enum", "TableauVerif.Props.C20Dur", "TableauVerif.Props.C12Count"],
         "oracles": ["c03.parse", "c03.frac", "c03.cmp", "c20.dur", "c03.reject", "c03.enum", "c09.doc"],
         "streams": [
             ("corr.xproto.enum", 6000, 200000),
